@@ -25,7 +25,10 @@ Qed.
     ToDFA, Isomorphic ...) in the middle of the construction, keep adding, then convert" is
     literally the same term as "build, then convert" — there is no state to state a theorem
     about.  On the Go side this independence is checked by the interleaved-construction cases of
-    the harness (Q<mask> entries in a case header), which the driver skips for that reason. *)
+    the harness (Q<mask> entries in a case header), which the driver skips for that reason.
+    Likewise a result never shares state with its operands in the model (Clone, ToDFA, Union ...
+    return new values); on the Go side the `alias <op>` probes extend one side and re-read the
+    other, expecting no change. *)
 
 (** NFA.Accept (ε-closure worklist + move) terminates on every automaton and word and decides the
     path language: w is accepted iff some path labelled w (ε-moves interleaved) leads from the
